@@ -430,6 +430,35 @@ def least_solution_real(A, b):
     return x
 
 
+def critical_block_sizes(A, b):
+    """Sizes of the irreducible blocks (within the support of the solution) of x = A x + b whose spectral radius is
+    EXACTLY one and that have no infinite entry: I - A_C is a singular M-matrix (all proper leading minors positive,
+    determinant zero).  Exact rational arithmetic."""
+    n = len(b)
+    pos = lambda v: v == INF or v > 0
+    succ = [set(j for j in range(n) if pos(A[i][j])) for i in range(n)]
+    supp = set(j for j in range(n) if pos(b[j]))
+    changed = True
+    while changed:
+        changed = False
+        for i in range(n):
+            if i not in supp and succ[i] & supp:
+                supp.add(i)
+                changed = True
+    out = []
+    for C in _sccs(n, [s & supp if i in supp else set() for i, s in enumerate(succ)]):
+        C = [i for i in C if i in supp]
+        if not C or not (len(C) > 1 or C[0] in succ[C[0]]):
+            continue
+        if any(A[i][j] == INF for i in C for j in C):
+            continue
+        M = [[(Fraction(1) if i == j else Fraction(0)) - (A[i][j] if j in succ[i] else 0) for j in C] for i in C]
+        k = len(C)
+        if all(_det([row[:m] for row in M[:m]]) > 0 for m in range(1, k)) and _det(M) == 0:
+            out.append(k)
+    return out
+
+
 def _det(M):
     n = len(M)
     M = [row[:] for row in M]
